@@ -794,9 +794,18 @@ func r18d(c *core.Ctx) {
 	}{
 		{"cancel", func(in ssa.Instruction) bool { ci2, ok := in.(ssa.CallInstruction); return ok && effs[0].pred(ci2) }},
 		{"limiter", func(in ssa.Instruction) bool { ci2, ok := in.(ssa.CallInstruction); return ok && effs[1].pred(ci2) }},
-		{"cache", func(in ssa.Instruction) bool { v, ok := in.(ssa.Value); return ok && core.IsFieldLoad(v, "router", "cache") }},
-		{"upstreams", func(in ssa.Instruction) bool { v, ok := in.(ssa.Value); return ok && core.IsFieldLoad(v, "router", "upstreams") }},
-		{"listeners", func(in ssa.Instruction) bool { v, ok := in.(ssa.Value); return ok && core.IsFieldLoad(v, "router", "serverClosers") }},
+		{"cache", func(in ssa.Instruction) bool {
+			v, ok := in.(ssa.Value)
+			return ok && core.IsFieldLoad(v, "router", "cache")
+		}},
+		{"upstreams", func(in ssa.Instruction) bool {
+			v, ok := in.(ssa.Value)
+			return ok && core.IsFieldLoad(v, "router", "upstreams")
+		}},
+		{"listeners", func(in ssa.Instruction) bool {
+			v, ok := in.(ssa.Value)
+			return ok && core.IsFieldLoad(v, "router", "serverClosers")
+		}},
 	}
 	for _, st := range stages {
 		skipped := core.Reach(ci, nil, core.IsReturn, st.pass)
